@@ -29,9 +29,15 @@ var (
 
 // RangeV is a collections ranger.
 type RangeV struct {
-	Prefix string // "" = whole map
+	Prefix string // first pair component equals Prefix ("" = no prefix)
+	Until  string // first pair component is at most Until (NewPrefixUntilPairRange)
+	Lo, Hi string // bounds on the second component (pair range with a prefix) or on the key (plain range); "" = open
+	LoIncl bool
+	HiIncl bool
 	Desc   bool
 }
+
+func (r RangeV) whole() bool { return r.Prefix == "" && r.Until == "" && r.Lo == "" && r.Hi == "" }
 
 // ListV is a Go-side list of heterogeneous values (varargs of interface{}, events, attributes).
 type ListV struct{ Elems []Value }
@@ -178,11 +184,44 @@ func init() {
 	reg("cosmossdk.io/collections.NewPrefixedPairRange", "NewPrefixedPairRange(p) ranges over exactly the keys whose first component is p, ascending", func(c *CallCtx) []Outcome {
 		return c.ret(RangeV{Prefix: c.t(0)})
 	})
-	reg("(*cosmossdk.io/collections.PairRange[K1, K2]).Descending", "Descending reverses the iteration order", func(c *CallCtx) []Outcome {
-		r := c.args[0].(RangeV)
-		r.Desc = true
-		return c.ret(r)
+	reg("cosmossdk.io/collections.NewPrefixUntilPairRange", "NewPrefixUntilPairRange(p) ranges over the keys whose first component is at most p, in key order", func(c *CallCtx) []Outcome {
+		return c.ret(RangeV{Until: c.t(0)})
 	})
+	rangeOf := func(c *CallCtx) (RangeV, bool) {
+		switch r := c.args[0].(type) {
+		case RangeV:
+			return r, true
+		case PtrV:
+			if rv, ok := c.x.load(c.st, r, nil).(RangeV); ok {
+				return rv, true
+			}
+		}
+		c.x.fail("range method on %s", describe(c.args[0]))
+		return RangeV{}, false
+	}
+	for _, recv := range []string{"(*cosmossdk.io/collections.PairRange[K1, K2])", "(*cosmossdk.io/collections.Range[K])"} {
+		recv := recv
+		reg(recv+".Descending", "Descending reverses the iteration order", func(c *CallCtx) []Outcome {
+			r, _ := rangeOf(c)
+			r.Desc = true
+			return c.ret(r)
+		})
+		bound := func(lo, incl bool) func(c *CallCtx) []Outcome {
+			return func(c *CallCtx) []Outcome {
+				r, _ := rangeOf(c)
+				if lo {
+					r.Lo, r.LoIncl = c.t(1), incl
+				} else {
+					r.Hi, r.HiIncl = c.t(1), incl
+				}
+				return c.ret(r)
+			}
+		}
+		reg(recv+".StartInclusive", "StartInclusive(k) keeps the keys (second components) >= k", bound(true, true))
+		reg(recv+".StartExclusive", "StartExclusive(k) keeps the keys (second components) > k", bound(true, false))
+		reg(recv+".EndInclusive", "EndInclusive(k) keeps the keys (second components) <= k", bound(false, true))
+		reg(recv+".EndExclusive", "EndExclusive(k) keeps the keys (second components) < k", bound(false, false))
+	}
 
 	// ----- errors --------------------------------------------------------------------------
 	same := func(c *CallCtx) []Outcome { return c.ret(TV{T: c.t(0), Ty: tError}) }
